@@ -8,9 +8,11 @@ Local Open Scope N_scope.
    trailing rest, every split of the stream into already-buffered and unread bytes, every read
    schedule and either way the stream may end afterwards: the k-th receive step returns exactly the
    k-th reply - code, and text = its bytes minus the final terminator - and after the last one the
-   bytes not yet handed out are exactly the rest: nothing lost, duplicated or merged. *)
+   bytes not yet handed out are exactly the rest: nothing lost, duplicated or merged.
+   (Code 421 ends the connection - C13: it is framed like any other reply, but nothing is received after it;
+   that case is C01_recv_frames_then_421 below.) *)
 Theorem C01_recv_frames : forall (m : nat) (rs : list wreply) (s : conn) (tail : bytes),
-  forallb (wf_reply m) rs = true ->
+  forallb (wf_reply m) rs = true -> forallb not421 rs = true ->
   buffer s ++ unread (tr s) = render rs ++ tail ->
   exists s', recv_n (length rs) (fixed_cfg m) s = (map (fun r => Ok (expected r)) rs, s') /\
              buffer s' ++ unread (tr s') = tail.
@@ -19,7 +21,7 @@ Print Assumptions C01_recv_frames.
 
 (* the result is identical for every way the stream is cut into network reads *)
 Theorem C01_schedule_irrelevant : forall m rs tail b1 u1 sc1 e1 b2 u2 sc2 e2,
-  forallb (wf_reply m) rs = true ->
+  forallb (wf_reply m) rs = true -> forallb not421 rs = true ->
   b1 ++ u1 = render rs ++ tail -> b2 ++ u2 = render rs ++ tail ->
   let r1 := recv_n (length rs) (fixed_cfg m) (mkConn b1 (mkT u1 sc1 e1)) in
   let r2 := recv_n (length rs) (fixed_cfg m) (mkConn b2 (mkT u2 sc2 e2)) in
@@ -27,6 +29,15 @@ Theorem C01_schedule_irrelevant : forall m rs tail b1 u1 sc1 e1 b2 u2 sc2 e2,
   buffer (snd r1) ++ unread (tr (snd r1)) = buffer (snd r2) ++ unread (tr (snd r2)).
 Proof. exact recv_schedule_irrelevant. Qed.
 Print Assumptions C01_schedule_irrelevant.
+
+(* a 421 reply itself is framed exactly like the others, for every schedule; the connection is then closed, the
+   bytes that followed are dropped and every later receive step reports an error *)
+Theorem C01_recv_frames_then_421 : forall m rs r s tail k,
+  forallb (wf_reply m) rs = true -> forallb not421 rs = true -> wf_reply m r = true -> not421 r = false ->
+  buffer s ++ unread (tr s) = render (rs ++ [r]) ++ tail ->
+  recv_n (length rs + 1 + S k) (fixed_cfg m) s = (map (fun r => Ok (expected r)) (rs ++ [r]) ++ [Exn], closed_conn).
+Proof. exact recv_frames_then_421. Qed.
+Print Assumptions C01_recv_frames_then_421.
 
 (* history: on the pinned code the cut between CR and LF changed the result (finding F1) *)
 Theorem C01_recv_frames_refuted_on_pinned :
